@@ -150,7 +150,7 @@ class C08(Prop):
         "guess_spec", "msa_guess_spec", "msa_vote_spec", "round_half_away", "iavg_score_rounding", "iexpect_score_rounding",
         "iscvec_spec", "sq_count_residues_text_spec", "textizen_spec", "dsqrlen_dsqdup_spec", "count_nondegenerate_codes",
         "custom_rejected_calls", "custom_setdegeneracy_post", "custom_ignored_caseins_post",
-        "char_classes_regenerated", "guess_probe_regenerated", "sq_guess_counts_all", "sq_copy_spec",
+        "char_classes_regenerated", "guess_probe_regenerated", "sq_guess_counts_all", "sq_copy_spec", "match_uniform",
     )]
     claimed = True
     technique = ("Lean 4 proof: table theorems closed by `decide` over the whole regenerated tables (vs a hand-written IUPAC statement), "
